@@ -71,6 +71,20 @@ Definition check_pol (prop : Z) (inp impl : sx) : sx :=
           else verdict V_DIVERGE cls [] (L [])
       | _, _ => badcase
       end
+  | L [A 28; L ops], L res =>
+      (* PublicIPFetcher.GetIP over time: one key, lifetime = the constant in the source; a failed discovery yields an error,
+         never an address *)
+      match dec_list d_cop ops, dec_list d_cres res with
+      | Some ops0, Some res =>
+          let ops := map (fun o => mkCop (op_now o) (op_key o) (op_cb o) publicip_defaultPublicIPCacheExpiration) ops0 in
+          let cls := 5 + 8 * Z.min 15 (Z.of_nat (length ops)) in
+          if (prop =? 18) && negb (cache_spec [] ops res) then verdict V_SPECFAIL cls [18; 2] (L [])
+          else if (prop =? 18) && negb (cache_norequery [] (map (fun o => mkCop (op_now o) (op_key o) (op_cb o) publicip_ipCheckerCallTimeout) ops0) res)
+               then verdict V_SPECFAIL cls [18; 5] (L [])
+          else if list_eqb cres_eqb (run_cache 0 [] ops) res then verdict V_OK cls [] (L [])
+          else verdict V_DIVERGE cls [] (L [])
+      | _, _ => badcase
+      end
   | L [A 4; A dl; A init; A maxi; L scripts], L [A winner; L counts; A elapsed] =>
       match dec_list (fun s => match s with L l => dec_list d_attempt l | _ => None end) scripts, sx_zs counts with
       | Some scripts, Some counts =>
